@@ -24,6 +24,9 @@ def gen_table(rng, ncols=None, nrows=None, shape=None, exotic_names=True):
             for j in range(nrows):
                 if rng.random() < 0.2:
                     data[j] = missing if integer else float(missing)
+                elif not integer and rng.random() < 0.08:
+                    # a valid number close to - but not equal to - the missing marker
+                    data[j] = float(missing) + rng.choice([0.05, -0.05, 1e-9, -1e-9, 0.0009765625])
         # at least two distinct valid values
         valid = [v for v in data if missing is None or v != missing]
         if len(set(valid)) < 2:
@@ -51,6 +54,18 @@ def write_table(table, d):
     path = os.path.join(d, table["file"])
     if table["file"].endswith(".nc"):
         return write_table_nc(table, path)
+    if table.get("via_symlink"):
+        # the model names its table as "link/../<file>": `link` is a symbolic link to elsewhere/deep, so the operating system
+        # finds the table in elsewhere/; a decoy of the same name (other numbers) sits next to the link
+        os.makedirs(os.path.join(d, "elsewhere", "deep"), exist_ok=True)
+        if not os.path.lexists(os.path.join(d, "link")):
+            os.symlink(os.path.join(d, "elsewhere", "deep"), os.path.join(d, "link"))
+        names = list(table["cols"])
+        with open(path, "w") as f:
+            f.write(",".join(names) + "\n")
+            for r in range(table["nrows"]):
+                f.write(",".join(repr(type(table["cols"][n]["data"][r])(31 + r)) for n in names) + "\n")
+        path = os.path.join(d, "elsewhere", table["file"])
     names = list(table["cols"])
     with open(path, "w") as f:
         f.write(",".join(names) + "\n")
